@@ -5,6 +5,7 @@ The main thread calls accept() (so that SIGINT behaves as in the daemon); a cont
 drives the scenario (adopt / execute / shutdown / SIGINT / second accept ...).
 """
 import asyncio
+import functools
 import gc
 import json
 import os
@@ -207,6 +208,7 @@ class World:
                         time.sleep(cleanup["sync"])
                     log("unwound", pid)
                     raise
+            payload.vh_pid = pid
             return payload
         if fl == "trio":
             async def payload(*args, **kwargs):
@@ -244,6 +246,7 @@ class World:
                             await trio.sleep(cleanup["shielded"])
                     log("unwound", pid)
                     raise
+            payload.vh_pid = pid
             return payload
 
         def payload(*args, **kwargs):
@@ -266,6 +269,7 @@ class World:
                             raise r[1]
                         return r[1]
             log("body-end", pid, out="none")
+        payload.vh_pid = pid
         return payload
 
     # ------------------------------------------------------------ operations
@@ -308,7 +312,9 @@ class World:
                 async def run(self):
                     return await body()
         log("unit-new", pid, fl=fl)
-        self.services[pid] = Svc()
+        svc = Svc()
+        svc.vh_pid = pid
+        self.services[pid] = svc
 
     # ------------------------------------------------------------ controller
     def control(self, steps, rid_default=0):
@@ -399,9 +405,21 @@ def describe(exc):
             d["pid"] = e.vh_pid
             d["is_original"] = e is OBJ.get(e.vh_pid)
         if isinstance(e, OrphanedReturn):
-            for pid, v in OBJ.items():
-                if e.value is v and not isinstance(v, BaseException):
-                    d["orphan_pid"] = pid
+            # identify the payload by the callable the runner reports, not by the returned
+            # value: falsy values such as 0 or () are shared objects
+            who = e.who
+            while isinstance(who, functools.partial):
+                who = who.func
+            pid = getattr(who, "vh_pid", None)
+            if pid is None and getattr(who, "__self__", None) is not None:
+                pid = getattr(who.__self__, "vh_pid", None)
+            if pid is not None:
+                d["orphan_pid"] = pid
+                d["is_original"] = e.value is OBJ.get(pid)
+            else:
+                for qid, v in OBJ.items():
+                    if e.value is v and not isinstance(v, BaseException):
+                        d["orphan_pid"] = qid
         causes.append(d)
     return causes
 
